@@ -24,7 +24,9 @@ classmodel("GroupCoordinator", {
 
 # OffsetFetchResponse (v1+ layout used here): topics: [(topic, [(partition, offset, metadata, error_code)])]
 OFPART = Tup(INT, INT, STR, INT)
-classmodel("OffsetFetchResponse", {"topics": List(Tup(STR, List(OFPART)))})
+# v2+ (KIP-88) adds a group-level error_code after the topics: the broker reports COORDINATOR_LOAD_IN_PROGRESS,
+# NOT_COORDINATOR, GROUP_AUTHORIZATION_FAILED there, with an EMPTY topic list (kafka: OffsetFetchRequest.getErrorResponse)
+classmodel("OffsetFetchResponse", {"topics": List(Tup(STR, List(OFPART))), "API_VERSION": INT, "error_code": INT})
 classmodel("OffsetFetchRequestObj", {"g_group": STR, "g_topics": List(Tup(STR, List(INT)))})
 
 
@@ -99,11 +101,14 @@ def _(c):
     c.local("offsets", Dict(TP, OAM))
     c.bind("OffsetAndMetadata", tupctor(OAM))
     c.bind("TopicPartition", tp_ctor)
-    c.owns("self._client", "self.group_id")
+    c.owns("self._client", "self.group_id", "OffsetFetchResponse.*")
     c.call("OffsetFetchRequest", returns=Ref("OffsetFetchRequestObj"), post=["fresh(result)", "result.g_group == a0"],
            note="OffsetFetchRequest(group_id, topics) builder object (wire form: bounded C11)")
+    c.ghost("$reply", Opt(Ref("OffsetFetchResponse")), "no_of_reply()")
     c.call("self._send_req", returns=Ref("OffsetFetchResponse"), havoc_all=True, raises=["KafkaError", "CancelledError"],
-           post=["fresh(result)"], note="sends to the group coordinator and returns the decoded response")
+           post=["fresh(result)", "1 <= result.API_VERSION <= 3"], ghost={"$reply": "some_of_reply(result)"},
+           note="sends to the group coordinator and returns the decoded response (OffsetFetch v1..v3, the versions "
+                "OffsetFetchRequestStruct lists)")
     c.call("self.coordinator_dead", modifies=["self_.coordinator_id", "Future.state", "Future.nres"],
            note="marks the coordinator unknown")
     c.modifies("self.coordinator_id", "Future.state", "Future.nres")
@@ -124,6 +129,77 @@ def _(c):
          " and tp == TopicPartition(topic, partition)"),
     ])
     c.ensures("no-unknown-offset-is-reported-as-committed", "forall(TP, lambda q: implies(q in result, result[q].offset != UNKNOWN_OFFSET))")
+    # "starts at the group's committed offset if one exists": the caller reads a partition absent from the result as
+    # "nothing committed -> the reset policy applies", so a normal return is only allowed for a response that carries
+    # no group-level error; since v2 such an error comes with an empty topic list and would otherwise be read as
+    # "nothing committed" for every partition asked
+    c.ensures_internal("a-group-level-error-is-never-read-as-nothing-committed",
+                       "$reply is not None and implies($reply.API_VERSION >= 2,"
+                       " Errors.for_code($reply.error_code) == Errors.NoError)")
+
+    @c.replay
+    def replay(model, ob=None):
+        return {"script": _OFFSET_FETCH_SCRIPT}
+
+
+# replay for _do_fetch_commit_offsets: real OffsetFetchResponse_v1..v3 objects, as a broker answers them (group-level
+# errors of v2+ come with an empty topic list), through the real function; committed offsets exist for both partitions
+_OFFSET_FETCH_SCRIPT = '''
+import asyncio, logging
+logging.disable(logging.CRITICAL)
+from aiokafka.consumer.group_coordinator import GroupCoordinator
+from aiokafka.protocol.commit import OffsetFetchResponse_v1, OffsetFetchResponse_v2, OffsetFetchResponse_v3
+from aiokafka.structs import TopicPartition
+from aiokafka import errors as Errors
+
+async def main():
+    bad = []
+    tps = [TopicPartition("t", 0), TopicPartition("t", 1)]
+    full = [("t", [(0, 4, "", 0), (1, 7, "", 0)])]
+    for code in (0, 14, 16, 30, 15):
+        for ver in (1, 2, 3):
+            if ver == 1:
+                if code != 0:
+                    continue
+                resp = OffsetFetchResponse_v1(full)
+            elif ver == 2:
+                resp = OffsetFetchResponse_v2(full if code == 0 else [], code)
+            else:
+                resp = OffsetFetchResponse_v3(0, full if code == 0 else [], code)
+            class C: pass
+            coord = C()
+            coord.group_id = "g"
+            coord.dead = 0
+            async def _send_req(request, resp=resp):
+                return resp
+            coord._send_req = _send_req
+            coord.coordinator_dead = lambda coord=coord: setattr(coord, "dead", coord.dead + 1)
+            try:
+                res = await GroupCoordinator._do_fetch_commit_offsets(coord, tps)
+            except Errors.KafkaError as e:
+                if code == 0:
+                    bad.append("v%d error-free response raised %r" % (ver, e))
+                continue
+            if code != 0:
+                bad.append("OffsetFetch v%d answered with group-level error %s (%d) and no topics; "
+                           "_do_fetch_commit_offsets returned %r = nothing committed for %r (the group has 4 and 7 committed)"
+                           % (ver, Errors.for_code(code).__name__, code, res, tps))
+            elif {tp: o.offset for tp, o in res.items()} != {tps[0]: 4, tps[1]: 7}:
+                bad.append("v%d: %r" % (ver, res))
+    return bad
+bad = asyncio.run(main())
+VIOLATED = bool(bad); DETAIL = repr(bad)
+'''
+
+
+@specfn("no_of_reply")
+def no_of_reply(ex, st):
+    return T.opt_none(Opt(Ref("OffsetFetchResponse")))
+
+
+@specfn("some_of_reply")
+def some_of_reply(ex, st, r):
+    return T.opt_some(Opt(Ref("OffsetFetchResponse")), V(Ref("OffsetFetchResponse"), r.t))
 
 
 # replay for _maybe_refresh_commit_offsets: a second partition asks for its committed offset while the OffsetFetch
